@@ -326,9 +326,11 @@ def c09(tier):
     for ks in KSS:
         for (a, m) in shapes:
             for v in (0, 1, 2):
+                if v == 1 and m > 65:
+                    continue            # the assumed-equal-tags query needs the SAT back end, which gives no verdict at 130 bytes
                 jobs.append(Job("ks%d-%d-ad%d-m%d" % (v, ks, a, m), "c09_ks.c",
                                 {"KS": ks, "ADLEN": a, "MLEN": m, "VARIANT": v},
-                                aead_cbmc(ks, "siv"), aead_native(ks, "siv"), unwind=unwind_for(a, m, 32), backend="sat",
+                                aead_cbmc(ks, "siv"), aead_native(ks, "siv"), unwind=unwind_for(a, m, 32), backend="sat" if v == 1 else "z3",
                                 timeout=300 if tier == "quick" else 900,
                                 facet=("determinism", "keystream-function-of-key-nonce4-tag", "keystream-depends-on-tag")[v]))
     meta = {
